@@ -405,7 +405,7 @@ class Encoder:
             return None
 
         def cap(t):
-            af = affine(t, None)
+            af = affine(t, None, narrow_opaque=True)
             if af is None or af[1] != 0 or len(af[0]) != 1:
                 return None, None
             (atom, coef), = af[0].items()
